@@ -439,7 +439,11 @@ def sum_zero(ctx, name, d, kind='ensures', depth=0):
             v = 0
             for (c, lo, hi, body) in g['terms']:
                 v = S.add(v, S.mul(body(k), c))
-            sum_zero(ctx, '%s.body%d' % (name, gi), v, kind, depth + 1)
+            # a sum that found no partner with the same bounds can only be shown zero term by term: that is a
+            # sufficient condition, its failure says the two sides are organised differently (kind 'structure':
+            # undecided unless a failing input is confirmed natively), not that they differ
+            unpaired = len(g['terms']) == 1 and kind != 'requires'
+            sum_zero(ctx, '%s.body%d' % (name, gi), v, 'structure' if unpaired else kind, depth + 1)
         with_hyp(ctx, [S.z(S.ge(k, g['lo'])), S.z(S.lt(k, g['hi']))], sub)
     sum_zero(ctx, name + '.rest' if groups else name, rest, kind, depth + 1)
 
